@@ -488,6 +488,104 @@ def _response_clauses():
     ]
 
 
+def _non_null_clauses():
+    def error_iff_null(p):
+        a = p.assumed("resolved_value is None")
+        if a is None or p.outcome != "return":
+            return None
+        return count(p.events, "add_error") == (1 if a else 0)
+
+    return [
+        ("one-error-exactly-for-null", "a null in a non-nullable position records exactly one error, a non-null value none", error_iff_null),
+        ("value-passes-through", "the value is returned unchanged (null is not propagated, as the property states)",
+         lambda p: None if p.outcome != "return" else isinstance(p.payload, Unknown) and p.payload.text == "resolved_value"),
+        ("error-carries-nodes-and-path", "the recorded error is a resolver error built with the field nodes and the response path",
+         lambda p: None if "add_error" not in p.events else "error(nodes,path)" in p.events),
+    ]
+
+
+def _complete_value_clauses():
+    NN = "isinstance(field_type, NonNullType)"
+
+    def non_null_first(p):
+        if p.assumed(NN) is True:
+            return p.events == ("complete_non_nullable",) and (p.outcome != "return" or (isinstance(p.payload, Unknown) and p.payload.text.startswith("self.complete_non_nullable_value")))
+        return None
+
+    def null_is_null(p):
+        if p.assumed(NN) is False and p.assumed("resolved_value is None") is True:
+            return p.events == () and p.outcome == "return" and isinstance(p.payload, T.Const) and p.payload.value is None
+        return None
+
+    def explicit_raises(p):
+        if p.outcome != "raise" or any("raises" in t for t in p.trail):
+            return None
+        return exc_is(p.payload, RuntimeError, TypeError)
+
+    def leaf_once(p):
+        if p.assumed("isinstance(field_type, ScalarType)") is True and p.outcome == "return":
+            return p.events == ("serialize",)
+        return None
+
+    def enum_once(p):
+        if p.assumed("isinstance(field_type, EnumType)") is True and p.outcome == "return":
+            return p.events == ("get_name",)
+        return None
+
+    def object_once(p):
+        if p.assumed("isinstance(field_type, GraphQLCompositeType)") is True and p.outcome == "return":
+            return count(p.events, "execute_fields") == 1 and count(p.events, "collect_fields") == 1 and \
+                index(p.events, "collect_fields") < index(p.events, "execute_fields") and \
+                (p.assumed("isinstance(field_type, GraphQLAbstractType)") is not True or
+                 (count(p.events, "resolve_type") == 1 and index(p.events, "resolve_type") < index(p.events, "collect_fields")))
+        return None
+
+    def list_delegates(p):
+        if p.assumed("isinstance(field_type, ListType)") is True and p.outcome == "return":
+            return p.events == ("is_iterable", "complete_list")
+        return None
+
+    def serialisation_failures(p):
+        # a value the leaf type cannot represent fails the request with RuntimeError (the documented unexpected failure), nothing is swallowed
+        if any(t.endswith(".caught") for t in p.trail):
+            return p.outcome == "raise" and exc_is(p.payload, RuntimeError)
+        return None
+
+    return [
+        ("non-null-handled-before-null", "a non-null wrapper is delegated to complete_non_nullable_value before anything else (so a null inside it is reported)", non_null_first),
+        ("null-completes-to-null", "a null value of a nullable type completes to null without resolving, serialising or executing anything", null_is_null),
+        ("list-delegates", "a list type checks iterability and delegates to complete_list_value with the item type", list_delegates),
+        ("scalar-serialised-once", "a scalar value is serialised exactly once and nothing else happens", leaf_once),
+        ("enum-named-once", "an enum value is mapped to its name exactly once and nothing else happens", enum_once),
+        ("object-executes-its-selection-once", "a composite value resolves its runtime type (if abstract), collects the sub-selections of all nodes and executes them exactly once",
+         object_once),
+        ("only-runtime-errors-raised-here", "complete_value itself raises only RuntimeError / TypeError (never the library's resolver error)", explicit_raises),
+        ("unrepresentable-leaf-fails-the-request", "ScalarSerializationError / UnknownEnumValue are turned into RuntimeError", serialisation_failures),
+    ]
+
+
+def _exec_fields_clauses(blocking):
+    def per_iteration(p):
+        if not any(e.startswith("for[") for e in p.events) or "}!" in p.events:
+            return None                      # no iteration, or the iteration was cut short by an exception
+        body = p.events[p.events.index([e for e in p.events if e.startswith("for[")][0]) + 1:]
+        body = body[:body.index("}")] if "}" in body else body
+        if blocking:
+            return tuple(body) == ("resolve", "store")
+        return tuple(body) == ("resolve", "append:keys", "append:pending")
+
+    def pairs_keys_with_values(p):
+        if blocking or p.outcome != "return":
+            return None
+        return "gather" in p.events and "cb:then" in p.events and "zip(keys,done)" in p.events and index(p.events, "gather") < index(p.events, "cb:then")
+
+    out = [("one-resolution-per-field-in-order", "each grouped field is resolved exactly once per iteration and its value recorded under its key, in iteration order", per_iteration)]
+    if not blocking:
+        out.append(("result-pairs-keys-with-gathered-values", "the result is the ordered pairing of the recorded keys with the gathered values, built once they are all available",
+                    pairs_keys_with_values))
+    return out
+
+
 TRACE_CONTRACTS = [
     dict(id="BlockingExecutor.resolve_field", target="py_gql.execution.blocking_executor:BlockingExecutor.resolve_field", props=["C16"],
          config=Config(events=FIELD_EVENTS, nothrow=FIELD_NOTHROW), clauses=FIELD_CLAUSES,
@@ -500,6 +598,25 @@ TRACE_CONTRACTS = [
          assumes=["Runtime.map_value effect contract (contracts/traces.py map_value_contract) for every runtime",
                   "complete_value raises no ResolverError / CoercionError (type resolvers and scalar serialisers do not raise the library's resolver error)",
                   "Runtime.unwrap_value does not raise"]),
+    dict(id="Executor._handle_non_nullable_value", target="py_gql.execution.executor:Executor._handle_non_nullable_value", props=["C04", "C10"],
+         config=Config(events=[(r"self\.add_error$", "add_error"),
+                               (r"^ResolverError$", lambda call, args, kwargs: "error(%s)" % ",".join(k for k in ("nodes", "path") if k in kwargs))],
+                       nothrow=[r"self\.add_error$", r"^ResolverError$", r"^stringify_path$"]),
+         clauses=_non_null_clauses(), assumes=["add_error and the error constructor do not raise"]),
+    dict(id="Executor.complete_value", target="py_gql.execution.executor:Executor.complete_value", props=["C04", "C16"],
+         config=Config(events=[(r"self\.complete_non_nullable_value$", "complete_non_nullable"), (r"self\.complete_list_value$", "complete_list"),
+                               (r"^is_iterable$", "is_iterable"), (r"field_type\.serialize$", "serialize"), (r"field_type\.get_name$", "get_name"),
+                               (r"self\.resolve_type$", "resolve_type"), (r"self\.execute_fields$", "execute_fields"), (r"self\.collect_fields$", "collect_fields")],
+                       nothrow=[r"^stringify_path$", r"^is_iterable$", r"is_possible_type$"]),
+         clauses=_complete_value_clauses(), assumes=["is_iterable / is_possible_type / stringify_path do not raise"]),
+    dict(id="BlockingExecutor.execute_fields", target="py_gql.execution.blocking_executor:BlockingExecutor.execute_fields", props=["C04"],
+         config=Config(events=[(r"self\.resolve_field$", "resolve")], stmt_events=[(r"^result\[key\]$", "store")], nothrow=[r"^OrderedDict$"]),
+         clauses=_exec_fields_clauses(True), assumes=[]),
+    dict(id="Executor.execute_fields", target="py_gql.execution.executor:Executor.execute_fields", props=["C04"],
+         config=Config(events=[(r"self\.resolve_field$", "resolve"), (r"^keys\.append$", "append:keys"), (r"^pending\.append$", "append:pending"),
+                               (r"gather_values$", "gather"), (r"^zip$", lambda call, args, kwargs: "zip(%s)" % ",".join(__import__("ast").unparse(a) for a in call.args))],
+                       nothrow=[r"^OrderedDict$", r"\.append$", r"^zip$", r"gather_values$"], callbacks=[(r"runtime\.map_value$", map_value_contract)]),
+         clauses=_exec_fields_clauses(False), assumes=["Runtime.map_value effect contract; gather_values keeps input order (bounded by C08)"]),
     dict(id="BlockingRuntime.map_value", target="py_gql.execution.runtime.blocking:BlockingRuntime.map_value", props=["C16", "C08"],
          config=Config(events=[(r"^then$", "then"), (r"^else_\[1\]$", "else")]),
          clauses=[("then-exactly-once-first", "`then` is invoked exactly once, first", lambda p: count(p.events, "then") == 1 and p.events[0] == "then"),
